@@ -79,6 +79,11 @@ type Server struct {
 	close func()
 }
 
+// NewServer wraps a listener a program runs itself (so that URL works for it).
+func NewServer(proto, addr string, closeFn func()) *Server {
+	return &Server{Proto: proto, Addr: addr, close: closeFn}
+}
+
 // Close stops the server.
 func (s *Server) Close() {
 	if s.close != nil {
